@@ -680,6 +680,14 @@ class Interp:
 
     # ---- attribute access ---------------------------------------------------
     def getattr(self, o, name):
+        if name == "__iter__":
+            if isinstance(o, (list, tuple, dict, set, frozenset, str)) or \
+                    (isinstance(o, Obj) and (o.items is not None or o.strval is not None)):
+                return Native("__iter__", lambda i, a, k: list(self._as_list(o)))
+            if isinstance(o, Obj) and o.cls is not None and \
+                    self.model.lookup_method(o.cls, "__iter__") is not None:
+                return Bound(Closure(self.model.lookup_method(o.cls, "__iter__")), o)
+            raise AbsRaise("AttributeError", "__iter__")
         if isinstance(o, DT):
             self.ops_seen.add(f"date.{name}")
             if name == "tzinfo":
@@ -715,7 +723,14 @@ class Interp:
         if isinstance(o, TZ):
             if name in ("localize", "normalize", "zone"):
                 if self.provider == "pytz":
-                    raise Unsupported("pytz tzinfo interface not modelled")
+                    if name == "zone":
+                        return o.key_
+                    if name == "localize":
+                        return Native("tz.localize", lambda i, a, k, o=o: a[0].with_(
+                            kind="utc" if o.kind == "utc" else "zoned",
+                            zone=None if o.kind == "utc" else o.key_))
+                    # normalize() may move the wall clock (DST gaps): a new value
+                    return Native("tz.normalize", lambda i, a, k: a[0].with_(tag="pytz-normalized"))
                 raise AbsRaise("AttributeError", name)
             if name == "key":
                 return o.key_
@@ -783,7 +798,9 @@ class Interp:
         tz = a[0] if a else None
         if isinstance(tz, TZ) and tz.kind == "utc":
             return o.with_(kind="utc", zone=None)
-        raise Unsupported("astimezone to a non-UTC zone")
+        if isinstance(tz, TZ):
+            return o.with_(kind="zoned", zone=tz.key_, tag="converted")
+        raise Unsupported("astimezone without a zone")
 
     def _list_method(self, o, name):
         if name == "append":
@@ -969,6 +986,10 @@ class Interp:
                 raise Unsupported("types_factory.all_types not found")
             if name == "from_ical":
                 return Native("types_factory.from_ical", lambda i, a, k: Unknown("decoded value"))
+            if name == "types_map":
+                tm, _ = self.model.types_map()
+                mp = Obj(self.model.cls("caselessdict.CaselessDict"), OrderedDict(tm))
+                return mp
             raise Unsupported(f"types_factory.{name}")
         raise Unsupported(f"{o.name}.{name}")
 
@@ -1148,7 +1169,11 @@ class Interp:
             # date + timedelta with a time part: Python drops the time part
             self.ops_seen.add("date+timedelta(seconds) drops time")
             return DT("date", None, term, None, tag="seconds-dropped")
-        return DT(d.kind, None if td.mag != "zero" else d.rank, term, d.zone,
+        rank = d.rank
+        if rank is not None and td.mag != "zero":
+            # abstract durations are positive: the result is strictly later/earlier
+            rank = rank + (0.5 if sign > 0 else -0.5)
+        return DT(d.kind, rank, term, d.zone,
                   tag=d.tag if d.tag == "seconds-dropped" else None)
 
     # ---- calls -------------------------------------------------------------
@@ -1196,7 +1221,13 @@ class Interp:
                 src = getattr(self, "_field_src", None)
                 if src is not None:
                     return src.with_(kind="naive", zone=None)
+            if args and all(isinstance(a, int) and not isinstance(a, bool) for a in args) and not kwargs:
+                return DT("naive", None, None, None, tag="from-fields")
             raise Unsupported("datetime(...) constructor")
+        if t.name == "date":
+            if args and all(isinstance(a, int) and not isinstance(a, bool) for a in args):
+                return DT("date", None, None, None, tag="from-fields")
+            raise Unsupported("date(...) constructor")
         if t.name in BUILTIN_EXC:
             o = Obj(None)
             o.attrs["__exc__"] = t.name
